@@ -103,7 +103,7 @@ def _element_truthiness(conds, ev) -> set:
     pre_of = {}
     for l in ev.loop_log:
         for nm in l.get('names', ()):
-            v = l['pre'].env.get(nm) if hasattr(l.get('pre'), 'env') else None
+            v = ScanModel.flat(l['pre']).get(nm) if hasattr(l.get('pre'), 'env') else None
             pre_of[(l['lid'], nm)] = v
 
     def is_element(v) -> bool:
@@ -204,14 +204,27 @@ def check_scans(ctx, kinds=('lower', 'higher', 'closest'), fill_true_only=False,
         # ---------------- updates
         problems = []
 
-        def is_next(v, it) -> bool:
+        def is_next(v, it, was=None) -> bool:
+            if isinstance(v, Gam) and was is not None:
+                # `next(it, None) if <the value so far> is not None else None`: an exhausted iterator is not asked again - the same value either way
+                none_first = veq(v.pred, P('isnone', was))
+                if none_first or veq(v.pred, p_not(P('isnone', was))):
+                    keep, fetch = (v.a, v.b) if none_first else (v.b, v.a)
+                    return isinstance(keep, Const) and keep.v is None and is_next(fetch, it)
+                return False
             return isinstance(v, Term) and v.head == 'lib:next' and len(v.args) == 2 and veq(v.args[0], it) and isinstance(v.args[1], Const) and v.args[1].v is None
 
         def plus_one(loop, name) -> bool:
             a, b = m.ev.as_num(m.end(loop, name)), m.ev.as_num(m.entry(loop, name))
             return a is not None and b is not None and a.r == b.r + C(1)
         for loop, lname in ((Pf, 'prefix loop'), (Mn, 'main loop')):
-            if not is_next(m.end(loop, m.lkn), m.l_it):
+            if m.lk_next is not None:
+                # query stream with one element of look-ahead: query <- look-ahead query <- next(iterator, None)
+                if not veq(m.end(loop, m.lkn), m.entry(loop, m.lk_next)):
+                    problems.append(f"{lname}: the query is not replaced by the look-ahead query: {show(m.end(loop, m.lkn), 60)}")
+                if not is_next(m.end(loop, m.lk_next), m.l_it, m.entry(loop, m.lk_next)):
+                    problems.append(f"{lname}: the look-ahead query is not replaced by the next one (with a None sentinel): {show(m.end(loop, m.lk_next), 60)}")
+            elif not is_next(m.end(loop, m.lkn), m.l_it):
                 problems.append(f"{lname}: the query is not replaced by the next one (with a None sentinel): {show(m.end(loop, m.lkn), 60)}")
             if not plus_one(loop, m.q):
                 problems.append(f"{lname}: the query counter does not advance by one: {show(m.end(loop, m.q), 60)}")
@@ -221,17 +234,17 @@ def check_scans(ctx, kinds=('lower', 'higher', 'closest'), fill_true_only=False,
         for nm in (m.nxt, m.p) + ((m.cur,) if m.cur else ()):
             if nm in Pf['names']:
                 problems.append(f"prefix loop modifies {nm}")
-        if not is_next(m.end(Ad, m.nxt), m.x_it):
+        if not is_next(m.end(Ad, m.nxt), m.x_it, m.entry(Ad, m.nxt)):
             problems.append(f"advance loop: the look-ahead element is not replaced by the next one (with a None sentinel): {show(m.end(Ad, m.nxt), 60)}")
         if not plus_one(Ad, m.p):
             problems.append(f"advance loop: the array counter does not advance by one: {show(m.end(Ad, m.p), 60)}")
         if kind == 'closest' and m.cur is not None and not veq(m.end(Ad, m.cur), m.entry(Ad, m.nxt)):
             problems.append(f"advance loop: the current element does not become the previous look-ahead element: {show(m.end(Ad, m.cur), 60)}")
-        if m.lkn in Ad['names'] or m.q in Ad['names']:
+        if m.lkn in Ad['names'] or m.q in Ad['names'] or (m.lk_next is not None and m.lk_next in Ad['names']):
             problems.append('advance loop modifies the query or its counter')
         # nothing changes the pointers between the start of a main iteration and the advance loop, or after it
-        for nm in (m.nxt, m.p, m.lkn, m.q) + ((m.cur,) if m.cur else ()):
-            if not veq(Ad['pre'].env.get(nm), m.entry(Mn, nm)):
+        for nm in (m.nxt, m.p, m.lkn, m.q) + ((m.cur,) if m.cur else ()) + ((m.lk_next,) if m.lk_next else ()):
+            if not veq(m.pre(Ad, nm), m.entry(Mn, nm)):
                 problems.append(f"main loop: {nm} is modified before the advance loop")
         for nm in (m.nxt, m.p) + ((m.cur,) if m.cur else ()):
             v = m.end(Mn, nm)
